@@ -257,7 +257,7 @@ func TestWorker(t *testing.T) {
 			}
 			rec := RunRecord{Seed: seed, Class: plan.Class, End: res.Stats.EndReason, Steps: res.Stats.Steps, TaskSteps: res.Stats.TaskSteps,
 				SimTimeNs: int64(res.Stats.SimTime), Cmds: res.Stats.Cmds, Replies: res.Stats.Replies,
-				SchedFp: fmt.Sprintf("%016x", res.Stats.SchedFp), Faults: res.Stats.Faults, Probes: res.Stats.Probes, Extra: res.Extra}
+				SchedFp: fmt.Sprintf("%016x", res.Stats.SchedFp), Faults: res.Stats.Faults, Probes: res.Stats.Probes, Extra: res.Extra, HistFp: histFp(res)}
 			if pd.race {
 				if txt := rlog.next(); txt != "" {
 					for _, rr := range parseRaceLog(txt) {
@@ -283,6 +283,18 @@ func TestWorker(t *testing.T) {
 			emit(rec)
 		}
 		emit(map[string]any{"done": true})
+	case "log":
+		// one run from its seed with the full event log (determinism debugging)
+		seed, _ := strconv.ParseUint(os.Getenv("VS_FROM"), 10, 64)
+		plan := pd.gen(seed, os.Getenv("VS_TIER") == "thorough")
+		res := runProp(t, pd, plan, newTape(seed), true)
+		for _, l := range res.Log {
+			fmt.Fprintln(out, l)
+		}
+		for _, op := range res.History {
+			fmt.Fprintf(out, "H c%d #%d %d..%d %s\n", op.Client, op.Idx, op.Invoke, op.Return, op.Reply.Canon())
+		}
+		fmt.Fprintf(out, "END %s fp=%016x hist=%s viol=%v\n", res.Stats.EndReason, res.Stats.SchedFp, histFp(res), res.Viol)
 	case "replay":
 		rf, err := readReplay(os.Getenv("VS_REPLAY"))
 		if err != nil {
